@@ -128,6 +128,46 @@ template <typename T, typename E> struct kit<T, E, 1>
     static std::vector<T> adj(R const& r) { return r.adjustment_data(); }
 };
 
+// K = 3: multi-channel with 1 random number mapped to 3 coordinates (map_dimensions != dimensions);
+// K = 4: multi-channel with a single channel
+template <typename T>
+struct wide_map
+{
+    sz channels;
+    T operator()(sz channel, std::vector<T> const& rn, std::vector<T>& coords, std::vector<sz> const&, std::vector<T>& dens, hep::multi_channel_map action) const
+    {
+        if (action == hep::multi_channel_map::calculate_coordinates)
+        {
+            for (sz k = 0; k != coords.size(); ++k) coords[k] = rn[0] * T(k + 1) / T(coords.size()) * (channel % 2 ? T(0.5) : T(1));
+            return T(1);
+        }
+        for (sz c = 0; c != channels; ++c) dens[c] = (c % 2 ? T(2) : T(1));
+        return T(1);
+    }
+};
+
+template <typename T, typename E, int K> struct wide_kit
+{
+    using C = hep::multi_channel_chkpt_with_rng<E, T>;
+    using R = hep::multi_channel_result<T>;
+    static sz channels() { return K == 3 ? 2 : 1; }
+    static sz mapdims() { return K == 3 ? 3 : 1; }
+    static C fresh() { E g; g.seed(5); return hep::make_multi_channel_chkpt<T, E>(T(0.01L), T(0.5), g); }
+    template <typename CB> static C mpi(std::vector<sz> const& calls, bool dist, CB cb)
+    {
+        return dist ? hep::mpi_multi_channel(MPI_COMM_WORLD, hep::make_multi_channel_integrand<T>(pfn<T>(), 1, wide_map<T>{channels()}, mapdims(), channels(), hep::make_dist_params<T>(3, T(0), T(1), "d")), calls, fresh(), cb)
+                    : hep::mpi_multi_channel(MPI_COMM_WORLD, hep::make_multi_channel_integrand<T>(pfn<T>(), 1, wide_map<T>{channels()}, mapdims(), channels()), calls, fresh(), cb);
+    }
+    static R serial(R const& like, sz calls, bool dist, E& gen)
+    {
+        return dist ? hep::multi_channel_iteration(hep::make_multi_channel_integrand<T>(pfn<T>(), 1, wide_map<T>{channels()}, mapdims(), channels(), hep::make_dist_params<T>(3, T(0), T(1), "d")), calls, like.channel_weights(), gen)
+                    : hep::multi_channel_iteration(hep::make_multi_channel_integrand<T>(pfn<T>(), 1, wide_map<T>{channels()}, mapdims(), channels()), calls, like.channel_weights(), gen);
+    }
+    static std::vector<T> adj(R const& r) { return r.adjustment_data(); }
+};
+template <typename T, typename E> struct kit<T, E, 3> : wide_kit<T, E, 3> {};
+template <typename T, typename E> struct kit<T, E, 4> : wide_kit<T, E, 4> {};
+
 template <typename T, typename E> struct kit<T, E, 2>
 {
     using C = hep::multi_channel_chkpt_with_rng<E, T>;
@@ -219,7 +259,7 @@ struct runner
             L const eps = std::numeric_limits<T>::epsilon();
             auto close = [&](T a, T b, L scale, char const* what) {
                 if (exact && k == 0) { if (!vf::same_bits(a, b)) { r.violate(std::string("sums-differ-from-serial/") + what, id, id + ": iteration " + std::to_string(k) + " " + what + " " + vf::dec(a) + " serial " + vf::dec(b) + " (exact arithmetic: must be identical)"); return false; } return true; }
-                if (std::fabs(L(a) - L(b)) > (world + 4) * eps * scale) { r.violate(std::string("sums-differ-from-serial/") + what, id, id + ": iteration " + std::to_string(k) + " " + what + " " + vf::dec(a) + " serial " + vf::dec(b)); return false; }
+                if (!(std::fabs(L(a) - L(b)) <= (world + 4) * eps * scale)) { r.violate(std::string("sums-differ-from-serial/") + what, id, id + ": iteration " + std::to_string(k) + " " + what + " " + vf::dec(a) + " serial " + vf::dec(b)); return false; }
                 return true;
             };
             // sum of |f w| is bounded by sqrt(N sumsq)
@@ -313,6 +353,7 @@ static void configs(report& r, bool thorough)
     for (int tgt = 0; tgt != 2; ++tgt)
     {
         if (tgt == 1 && lists[li].size() < 3) continue;
+        if (K >= 3 && (dist == 1 || tgt == 1 || fn == 0 || li % 2 == 0)) continue;    // the two extra multi-channel shapes: a subset
         T const target = tgt ? T(0.35L) : T();
         auto run_world = [&](int world, int order_mode) {
             std::string const id = base + " fn=" + std::to_string(fn) + " dist=" + std::to_string(dist) + " calls=" + vf::join(lists[li]) + " target=" + std::to_string(tgt)
@@ -320,7 +361,7 @@ static void configs(report& r, bool thorough)
             if (!r.want(id)) return;
             r.eval();
             g_fn = fn;
-            runner<T, E, K> rn{r, id, lists[li], dist != 0, target, world, fn == 0 && K != 2};
+            runner<T, E, K> rn{r, id, lists[li], dist != 0, target, world, fn == 0 && K < 2};
             vf::mpi_env env(world);
             std::vector<vf::bytes> results;
             rn.explore(env, results, order_mode);
@@ -342,6 +383,8 @@ static void engine(report& r)
     configs<T, E, 0>(r, th);
     configs<T, E, 1>(r, th);
     configs<T, E, 2>(r, th);
+    configs<T, E, 3>(r, th);
+    configs<T, E, 4>(r, th);
 }
 
 // parts: type = part % 3, engine group = part / 3
